@@ -5,7 +5,7 @@
 // One schedule = one worker process (a hung one is simply abandoned / killed by the parent).
 //
 // parent:  c20 -in <schedules> -out <results> -j N     (S lines of ocaml/C20/driver.ml + built-ins)
-// worker:  c20 -worker -spec "<S line>"  |  c20 -worker -scenario f1det-remove|f1det-import|nilrace|race-stop
+// worker:  c20 -worker -spec "<S line>"  |  c20 -worker -scenario f1det-remove|f1det-import|nilrace|race-stop/<n>|qp/<n>
 //
 // result line:  R id=.. blocks=.. reqs=.. stop=.. steered=k/n diverged=0|1 outcome=stopped|hang|idle|busy|panic obs=a,hb,..
 // observable alphabet (= labels of coq/Sched/Handshake.v):
@@ -567,6 +567,9 @@ func runWorker(spec, scen string) {
 	case strings.HasPrefix(scen, "race-stop/"):
 		n, _ := strconv.Atoi(scen[len("race-stop/"):])
 		raceStop(seed, n)
+	case strings.HasPrefix(scen, "qp/"):
+		n, _ := strconv.Atoi(scen[len("qp/"):])
+		qp(seed, n)
 	default:
 		fmt.Fprintln(os.Stderr, "unknown scenario")
 		os.Exit(2)
@@ -581,6 +584,8 @@ func main() {
 	out := flag.String("out", "", "result file")
 	jobs := flag.Int("j", 8, "parallel worker processes")
 	nrace := flag.Int("race", 0, "number of unsteered request/Stop races to add")
+	nqp := flag.Int("qp", 0, "number of queue-pressure schedules to add (pressure.go)")
+	scens := flag.String("scen", "", "further built-in scenarios to run (comma separated, e.g. qp/7: replay)")
 	flag.Parse()
 	if *worker || *scen != "" || *spec != "" {
 		runWorker(*spec, *scen)
@@ -615,6 +620,15 @@ func main() {
 	for i := 0; i < *nrace; i++ {
 		s := fmt.Sprintf("race-stop/%d", i)
 		jobsList = append(jobsList, job{[]string{"-worker", "-scenario", s}, s})
+	}
+	for i := 0; i < *nqp; i++ {
+		s := fmt.Sprintf("qp/%d", i)
+		jobsList = append(jobsList, job{[]string{"-worker", "-scenario", s}, s})
+	}
+	for _, s := range strings.Split(*scens, ",") {
+		if s != "" {
+			jobsList = append(jobsList, job{[]string{"-worker", "-scenario", s}, s})
+		}
 	}
 	self, _ := os.Executable()
 	results := make([][]byte, len(jobsList))
